@@ -2,8 +2,10 @@
 import io, contextlib, itertools, json, os, signal, sys, time, traceback
 import common, extract
 import oracle_rewrite as orc
+import c11_driver as drv
+import c11_sums as sums
 
-LEAN_MODULE = "ESRVerif.Props.C11"
+LEAN_MODULE = ["ESRVerif.Props.C11", "ESRVerif.Props.C11b"]
 LEVEL = "other"
 LEVEL_TEXT = ("Machine-checked validator: Lean theorem certEquiv_sound (all real evaluation points, unbounded in the tree) says that a pair of "
               "label lists accepted by the executable checker certEquiv is a well-formed rewritten tree denoting the same real function as "
@@ -12,28 +14,45 @@ LEVEL_TEXT = ("Machine-checked validator: Lean theorem certEquiv_sound (all real
               "a numeric prefix-tree evaluator at 8 generic points. The quantifier over trees is therefore bounded (exhaustive small, sampled above) "
               "while the quantifier over evaluation points is universal. update_tree is additionally modelled in full at list level (detection loops "
               "over the regenerated pow_num/exp_ord tables and all output splices), compared with the real function on every call the real driver makes, "
-              "and proved to remove a pow-set label on every rewrite (updateTree_decreases, driver_phase1_bounded: phase 1 cannot rewrite forever). "
-              "update_sums is not modelled: its outputs are certified pair by pair and its termination is observed by a time-bounded run of the real driver.")
+              "and proved to remove a pow-set label on every rewrite (updateTree_decreases, driver_phase1_bounded). "
+              "The fixed-point driver find_additional_trees is modelled as written over abstract rewriters and an abstract cross-check oracle "
+              "(Props/C11b: driver_outputs_from_rewriters, driver_phase_order, driver_no_duplicates, driver_terminates within |U|+1 passes per loop when the reachable "
+              "label lists lie in a finite list U, phase1_terminates_updateTree with U computed from powCount) and compared with the REAL driver running over "
+              "PRNG-scripted rewriters. update_sums is ported statement by statement (every branch) and compared with the real function on every call the real "
+              "driver makes and on PRNG sum-centred trees with integer literals; updateSums_alphabet / updateSums_sizes_bounded_partial bound the labels and the length "
+              "of one step's outputs. Not proved: a finite universe for phase 2 (no decreasing measure exists: 2*A+B and B+2*A rewrite into each other, one step can "
+              "grow a tree by 2(m-2) labels); termination of phase 2 on real trees is observed through the per-tree time bound.")
 TECHNIQUE = ("Lean 4 proof of a certificate checker (normalisation by proved-sound steps over Mathlib's reals) + regenerated pow_num/exp_ord tables "
-             "+ exhaustive/sampled runs of the real rewriter through the checker and an independent numeric oracle")
-RULE = ("one evaluation = one (original tree, basis) run of the real find_additional_trees plus one per emitted extra tree; non-trivial = the run emitted at least "
-        "one extra tree; distinct by (labels, basis). quick: every tree with n<=5 over the six shipped bases (n<=6 for the four shipped bases with at most 12000 trees at n=6) "
-        "and over the fixed + PRNG user-style bases (n<=4 for user bases with more than 1500 trees at n=5), plus 2500 PRNG-sampled trees at n=6,7; "
-        "thorough: every tree n<=6 (shipped) / n<=5 or 6 (user) plus 30000 PRNG-sampled trees at each of n=7,8,9")
+             "+ Lean models of update_tree, update_sums and of the fixed-point driver with invariants/termination proofs + exhaustive/sampled runs of the "
+             "real rewriter through the checker and an independent numeric oracle + the real driver over PRNG-scripted rewriters")
+RULE = ("one evaluation = one (original tree, basis) run of the real find_additional_trees plus one per emitted extra tree, or one scripted run of the real driver; "
+        "non-trivial = the run emitted at least one extra tree; distinct by (labels, basis) / by script. quick: every tree with n<=5 over the six shipped bases "
+        "(n<=6 for the four shipped bases with at most 12000 trees at n=6) "
+        "and over the fixed + PRNG user-style bases (n<=4 for user bases with more than 1500 trees at n=5), plus 2500 PRNG-sampled trees at n=6,7, 400 driver scripts, "
+        "2500 synthetic update_sums trees x 3 try indices; "
+        "thorough: every tree n<=6 (shipped) / n<=5 or 6 (user) plus 30000 PRNG-sampled trees at each of n=7,8,9, 4000 driver scripts, 30000 synthetic update_sums trees")
 EXPLANATION = LEVEL_TEXT
 TRUSTED = ["Mathlib v4.33 reals: Real.exp/log/rpow/sqrt",
            "ESR operator semantics as written in Proofs/Rewrite.lean (inv u=1/u, sqrt_abs u=sqrt|u|, log_abs u=log|u|, pow(u,v)=|u|^v; from esr/fitting/sympy_symbols.py)",
            "harness/extractors/rewrite.py (pow_set, pow_num, exp_set, exp_ord)",
            "harness/oracle_rewrite.py (independent parser/evaluator, float + 60/120-digit mpmath)",
            "hand model UT.updateTree of update_tree in ESRVerif/Model/Rewrite.lean (subtree ends by slot counting instead of parent pointers; tied by "
-           "correspondence on every real call)"]
+           "correspondence on every real call)",
+           "hand model US.updateSums of update_sums in ESRVerif/Model/RewriteSums.lean (same pointer reading, guarded by an evaluated precondition; tied by "
+           "correspondence on every real call + synthetic calls; answers `unported` are counted in the evidence)",
+           "hand model Drv.findAdditional of find_additional_trees in ESRVerif/Model/RewriteDriver.lean (three parallel lists as one list of entries; a tree = its shape; "
+           "tied by harness/c11_driver.py: the real driver over scripted rewriters, emitted lists + order + passes per loop)"]
 ASSUMPTIONS = ["equality is claimed at points where both trees are defined (Lean: total semantics everywhere, hence partial semantics where both defined); "
                "numeric oracle: finite values only, 8 generic points (x>0, parameters non-zero)",
                "trees beyond the exhaustive bound are PRNG-sampled; a numerically equal but uncertified pair beyond the quick bound is recorded as "
                "uncertified_sampled in the evidence and does not fail the run; within the quick bound it is reported as an incompleteness of the validator",
                "bases with the label pow_abs are outside the property's quantifier (binary operators from + * - / pow): explored, observations recorded, never a violation",
-               "termination of the whole driver = the real driver returns within the per-tree time bound; the Lean termination theorem covers phase 1 "
-               "(update_tree) only and assumes pow-set labels and log_abs sit on unary nodes (checked on every real call)"]
+               "termination: driver_terminates needs the reachable label lists to lie in a finite list U (hypothesis hU). For phase 1 over the update_tree model U is computed "
+               "(phase1_terminates_updateTree; its hypothesis Consistent is evaluated on every real update_tree call). For phase 2 hU is NOT proved "
+               "(updateSums_sizes_bounded_partial is a per-step bound); on real trees termination of the whole driver = the real driver returns within the per-tree time bound",
+               "the sympy cross-check inside the driver is an oracle parameter of the model (a deterministic function of parent and candidate); scripted runs replace it by a table",
+               "scripted driver runs use rewriter results `one`/`many`/`none`/raise with nadded consistent with the lists; a one-element candidate list in phase 2 "
+               "(never returned by update_sums, which unwraps it) is outside the modelled domain and not generated"]
 MODELLED = ["generator.py:update_tree", "generator.py:update_sums", "generator.py:find_additional_trees"]
 
 POW_SET = ("square", "cube", "sqrt_abs", "inv")
@@ -261,6 +280,68 @@ def _corr_update_tree(ctx, rec):
     return len(ops), bad, kinds, nodrop + incons
 
 
+
+# ---- the driver over scripted rewriters (model ESR.Rewrite.Drv.findAdditional; theorems of Props/C11b) ----------------
+
+def _driver_scripts(ctx, n):
+    """the REAL find_additional_trees over PRNG-scripted update_tree / update_sums / initial_sympify:
+    property oracle (drv.judge) + correspondence with the Lean model"""
+    scs = [drv.gen_script(ctx.rng) for _ in range(n)]
+    res = [drv.run_script(sc) for sc in scs]
+    stats = dict(scripts=n, mismatches=0, property_failures=0, outcomes={}, nontrivial=0, max_passes=[0, 0], max_emitted=0)
+    for sc, r in zip(scs, res):
+        nontriv = bool(r["out"] and len(r["out"]) > 1)
+        stats["nontrivial"] += int(nontriv)
+        ctx.case(("script", json.dumps(sc, sort_keys=True)), nontrivial=nontriv, n=1)
+        if r["out"]:
+            stats["max_emitted"] = max(stats["max_emitted"], len(r["out"]))
+            stats["max_passes"] = [max(a, b) for a, b in zip(stats["max_passes"], r["passes"])]
+        for key, what in drv.judge(sc, r):
+            stats["property_failures"] += 1
+            ctx.fail("%s:script:%s" % (key, _script_id(sc)), what, dict(kind="script", script=sc))
+    if _model_ok(ctx):
+        # fuel = |universe| + 3: script_run_terminates says the model cannot answer `fuel`
+        out = common.model([drv.op_line(sc, len(sc["univ"]) + 3) for sc in scs])
+        for sc, r, m in zip(scs, res, out):
+            a, b = drv.canon_real(r), drv.canon_model(m)
+            stats["outcomes"][m.split(" ")[0]] = stats["outcomes"].get(m.split(" ")[0], 0) + 1
+            if m == "fuel":
+                ctx.disagree("lean:script_run_terminates", "the model ran out of fuel on %s" % drv.op_line(sc, len(sc["univ"]) + 3))
+            if a != b:
+                stats["mismatches"] += 1
+                ctx.disagree("corr:find_additional_trees", "%s: code=%s model=%s" % (drv.op_line(sc, len(sc["univ"]) + 3)[:600], a[:300], m[:300]))
+        k = next((i for i, r in enumerate(res) if r["out"] and len(r["out"]) > 2), 0)
+        ctx.sample(dict(op=drv.op_line(scs[k], len(scs[k]["univ"]) + 3)[:400], code=drv.canon_real(res[k])[:200], model=out[k][:200]))
+    else:
+        stats["mismatches"] = -1
+    return stats
+
+
+def _script_id(sc):
+    import hashlib
+    return hashlib.sha1(json.dumps(sc, sort_keys=True).encode()).hexdigest()[:10]
+
+
+def _corr_update_sums(ctx, rec2, nsyn):
+    """model US.updateSums vs the real update_sums: every distinct call the real driver made + PRNG sum-centred trees
+    with integer literals called directly"""
+    out = {}
+    if not _model_ok(ctx):
+        return dict(real=dict(compared=0, mismatches=1), synthetic=dict(compared=0, mismatches=1))
+    for tag, calls in (("real", rec2.calls), ("synthetic", sums.synthetic_calls(ctx.rng, nsyn))):
+        r = sums.compare(ctx, calls, tag)
+        nun = sum(r["unported"].values())
+        out[tag] = dict(compared=r["compared"], mismatches=r["mismatches"], unported=r["unported"], result_kinds=r["kinds"],
+                        ported_fraction=round(r["compared"] / max(1, r["compared"] + nun), 6),
+                        max_length_growth_of_a_candidate=r["max_length_growth"])
+    out["real"]["calls_total"] = rec2.total
+    return out
+
+
+def _real_driver_shape(ctx, acc):
+    """driver_no_duplicates on the REAL runs (counted per run in _explore)"""
+    return acc.dups
+
 # ---- anchored-line coverage of the real code (sys.monitoring, each location reported once) ------------------------
 
 _COV = set()
@@ -319,10 +400,16 @@ class Acc(object):
         self.per_n = {}
         self.trees = 0
         self.slow = []
+        self.dups = 0
+        self.timeouts = 0
+        self.skipped = 0
 
 
 def _explore(ctx, acc, name, b, n, trees, in_quant, in_bound, tlimit):
     for tree, labels in trees:
+        if acc.timeouts >= 5:               # five trees already reported as non-terminating: do not spend the time bound on thousands more
+            acc.skipped += 1
+            continue
         r = run_real(tree, labels, b, tlimit)
         acc.trees += 1
         key = (tuple(labels), bkey(b))
@@ -331,6 +418,7 @@ def _explore(ctx, acc, name, b, n, trees, in_quant, in_bound, tlimit):
             acc.slow.append(dict(labels=labels, basis=b, wall_s=round(r["wall"], 2)))
         rp = dict(kind="tree", labels=list(labels), basis=b, tlimit=tlimit)
         if r["timeout"]:
+            acc.timeouts += 1
             _report(ctx, in_quant, "nontermination:%s@%s" % (",".join(labels), bkey(b)),
                     "find_additional_trees(%s) over basis %s did not return within %.0f s" % (labels, b, tlimit), rp)
             continue
@@ -339,6 +427,10 @@ def _explore(ctx, acc, name, b, n, trees, in_quant, in_bound, tlimit):
             _report(ctx, in_quant, "raises:%s:%s:%s@%s" % (et, where, ",".join(labels), bkey(b)),
                     "find_additional_trees(%s) over basis %s raises %s in %s: %s (no rewritten trees are produced; the generation run aborts)" % (labels, b, et, where, text), rp)
             continue
+        flat = [tuple(L) for L in r["extras"] if _flat(L)]
+        if len(set(flat)) != len(flat) or tuple(labels) in flat:          # theorem driver_no_duplicates, on the real run
+            acc.dups += 1
+            ctx.disagree("corr:driver-no-duplicates", "find_additional_trees(%s) over %s emits a label list twice: %s" % (labels, b, r["extras"]))
         for L in r["extras"]:
             acc.pairs.append((n, name, b, list(labels), L, in_quant, in_bound))
 
@@ -482,13 +574,18 @@ def run(ctx):
     from extractors import shape as shx
     shipped = [(n, b) for n, b, _ in shx.bases(ctx.stage)]
     user = USER_FIXED + _random_user_bases(ctx, 6 if deep else 3)
+    drv_stats = _driver_scripts(ctx, 4000 if deep else 400)
     cov_on = cov_start()
     rec = UTRec(400000 if deep else 120000)
     rec.install()
+    rec2 = sums.USRec(400000 if deep else 120000)
+    rec2.install()
     acc = Acc()
     t0 = time.time()
     plan = []
     tlimit = 120 if deep else 30
+    if any(f["key"].startswith("driver-nontermination") for f in ctx.failures):
+        tlimit = 10                     # the driver is already known not to stop on finite scripts
     try:
         for name, b in shipped:
             top = 6 if (deep or count_trees(6, b) <= 12000) else 5
@@ -517,9 +614,12 @@ def run(ctx):
                 _explore(ctx, acc, name, b, n, sample_trees(ctx.rng, n, b, max(1, nsamp // len(shipped + user))), True, False, tlimit)
         t_all = time.time() - t0
     finally:
+        rec2.remove()
         rec.remove()
         if cov_on:
             cov_stop()
+    us_stats = _corr_update_sums(ctx, rec2, 30000 if deep else 2500)
+    nodup_bad = _real_driver_shape(ctx, acc)
     stats, unc = _judge(ctx, acc)
     nut, badut, utkinds, nodrop = _corr_update_tree(ctx, rec)
     nmal, badmal, nwf = _malformed_stream(ctx, 3000 if deep else 600)
@@ -532,6 +632,7 @@ def run(ctx):
                                        for k, v in sorted(acc.per_n.items())}
     ctx.extra["uncertified_sampled"] = unc
     ctx.extra["trees_run"] = acc.trees
+    ctx.extra["trees_skipped_after_five_timeouts"] = acc.skipped
     ctx.extra["extra_trees"] = len(acc.pairs)
     ctx.extra["plan"] = plan
     ctx.extra["real_rewriter_wall_s"] = dict(exhaustive=round(t_exh, 1), with_samples=round(t_all, 1))
@@ -543,10 +644,16 @@ def run(ctx):
         miss = sorted(anch - _COV)
         ctx.extra["anchored_lines"] = dict(total=len(anch), executed=len(anch & _COV), never_executed=miss[:400])
     inb = [p for p in acc.pairs if p[6] and p[5]]
-    ctx.extra["corr_obligations"] = 5
+    ctx.extra["corr_obligations"] = 9
     ctx.extra["corr_discharged"] = (int(not any(d["name"] == "certEquiv:incomplete" for d in ctx.disagreements))
                                     + int(stats["parse_mismatch"] == 0 and badmal == 0)
-                                    + int(stats["unsound"] == 0) + int(badut == 0) + int(nodrop == 0))
+                                    + int(stats["unsound"] == 0) + int(badut == 0) + int(nodrop == 0)
+                                    + int(drv_stats["mismatches"] == 0 and drv_stats["scripts"] > 0)
+                                    + int(us_stats["real"]["mismatches"] == 0 and us_stats["real"]["compared"] > 0)
+                                    + int(us_stats["synthetic"]["mismatches"] == 0 and us_stats["synthetic"]["compared"] > 0)
+                                    + int(nodup_bad == 0))
+    ctx.extra["driver_model"] = drv_stats
+    ctx.extra["update_sums_model"] = us_stats
     ctx.extra["correspondence"] = dict(pairs_in_quick_bound=len(inb), parser_mismatches=stats["parse_mismatch"] + badmal,
                                        certified_but_numerically_different=stats["unsound"],
                                        update_tree_calls_total=rec.total, update_tree_distinct_calls_compared=nut,
@@ -583,6 +690,15 @@ def replay(ctx, data):
     import numpy as np
     from esr.generation import generator as g
     rp = data["replay"]
+    if rp.get("kind") == "script":
+        sc = rp["script"]
+        r = drv.run_script(sc)
+        print("find_additional_trees over the scripted rewriters of %s" % drv.op_line(sc, len(sc["univ"]) + 3)[:1500])
+        print("  real driver: %s" % drv.canon_real(r)[:600])
+        bad = drv.judge(sc, r)
+        for key, what in bad:
+            print("  %s: %s" % (key, what))
+        return not bad
     labels, b = rp["labels"], rp["basis"]
     try:
         ta = orc.parse(labels, b)
